@@ -59,6 +59,9 @@ def main(tier):
     # accesses through a cast pointer are undefined for odd addresses and trap on strict-alignment big-endian machines)
     ba = c05.flavour_batch(); ba.big_endian = True
     jobs.append(('forced-BE alignment-sanitizer plain loads/stores', ba, {'cc': 'clang', 'cflags': ('-O0', '-pthread', '-fsanitize=alignment', '-fno-sanitize-recover=all'), 'defines': BE}))
+    # the portable mask-and-shift swap macros (taken when the compiler offers no byte-swap builtins): same flavour batch, compiler identification removed
+    bn = c05.flavour_batch(); bn.big_endian = True
+    jobs.append(('forced-BE portable swap macros plain loads/stores', bn, {'cc': 'gcc', 'cflags': ('-O1', '-include', os.path.join(VERIF, 'ref', 'noswapbuiltin.h')), 'defines': tuple(d for d in BE if 'THREADS' not in d)}))
     # the unforced (little-endian) configuration on the same cases, reference switch off
     jobs.append(('LE plain loads/stores', c05.flavour_batch(), {'cc': 'gcc', 'cflags': ('-O1',)}))
     jobs.append(('LE atomics', c16.e1_batches(True), {'cc': 'gcc', 'cflags': ('-O1', '-pthread'), 'defines': ('-DWASM_THREADS_PTHREADS',)}))
